@@ -66,6 +66,9 @@ indices: `len = 1`, empty iteration).  `new` now inserts one by one in that case
 holds for EVERY entry list, and the old witnesses are positive theorems (`new_duplicate_key_repaired`,
 `new_duplicate_key_then_insert_repaired`, `new_duplicate_name_repaired`).
 -/
+import Compass.Gen.Decisions
+import Compass.Proofs.Num
+import Compass.Model.StateModel
 import Compass.Proofs.Container
 import Compass.Proofs.StateModel
 import Compass.Proofs.StateRefine
@@ -2205,6 +2208,28 @@ theorem custom_i64_roundtrip_counterexample :
   decide +kernel
 
 end integerprecision
+
+end C11
+end Compass
+
+namespace Compass
+namespace C11
+open Src
+
+/-! ### Source decision ties
+
+The relational operators at the named comparison sites of the Rust source are re-extracted on every run
+by `tools/gen_model.py` into `Compass/Gen/Decisions.lean` (`Src.<site> : Src.Rel`).  Each theorem below
+says that the hand-written model decides at that site by exactly the operator the source has there
+(`Rel.nat` / `Rel.int` / `Rel.num` interpret the extracted operator; an unrecognised line is `none`).  A
+source change that turns `<` into `<=`, `>` into `>=`, … at a site changes the generated constant and this
+proof obligation stops checking, whether or not a generated case lands on the tie. -/
+
+theorem src_custom_u64_negative {α : Type} [Field α] [LinearOrder α] [IsStrictOrderedRing α] [Lit α] [LawfulLit α] [IntCodec α] (c : Nat) (x : α) :
+    some (CustomFeatureFormat.decodeU64 (.unsignedInteger c) x) =
+      (custom_u64_negative.num x (zero : α)).map
+        fun neg => if neg then .error .value else .ok (IntCodec.toU64 x) := by
+  simp [CustomFeatureFormat.decodeU64, custom_u64_negative, Rel.num]
 
 end C11
 end Compass
